@@ -683,6 +683,8 @@ def diff_h1_item(exp, v):
             missing = [h for h in eh if h not in oh]
             if side == "req" and exp["req_framing"] == "chunked" and not missing and len(extra) == 1 and extra[0][0] == "Content-Length":
                 d.append("req-chunked-content-length")
+            elif side == "res" and not extra and len(missing) == 1 and missing[0][0] == "Connection" and "close" in missing[0][1].lower():
+                d.append("res-connection-close-dropped")
             else:
                 d.append(side + "-headers")
         if v[side + "_body"] != exp[side + "_body"]:
@@ -709,15 +711,18 @@ def diff_h1_item(exp, v):
             ah.pop("Content-Length", None)
         if ah != eh:
             d.append("analyze-req-headers")
-        if (an.get("resHeaders") or {}) != exp["an_res_headers"]:
+        eh = dict(exp["an_res_headers"])
+        if "res-connection-close-dropped" in d:
+            eh.pop("Connection", None)
+        if (an.get("resHeaders") or {}) != eh:
             d.append("analyze-res-headers")
     return d
 
 
 def classify_h1(diffs, exp=None):
     ds = set(diffs)
-    if ds == {"req-chunked-content-length"}:
-        return "h1-chunked-request-content-length"
+    if ds and ds <= {"req-chunked-content-length", "res-connection-close-dropped"}:
+        return "h1-chunked-request-content-length" if "req-chunked-content-length" in ds else "h1-response-connection-close"
     return None
 
 
